@@ -35,6 +35,9 @@ OBLIGATIONS = [
     "SkVerif.C06.scaled_univariate_eq_spec",
     "SkVerif.C06.median_reducer_is_median",
     "SkVerif.C06.mdae_univariate_is_median",
+    "SkVerif.C06.median_metrics_eq_spec",
+    "SkVerif.C06.median_scaled_univariate_eq_spec",
+    "SkVerif.C06.relative_loss_univariate_eq_spec",
     "SkVerif.C06.weighted_median_laws",
     "SkVerif.C06.horizon_weight_is_weighted_mean",
     "SkVerif.C06.direct_metrics",
@@ -44,12 +47,14 @@ OBLIGATIONS = [
     "SkVerif.C06.mdape_weighted_partial",
     "SkVerif.C06.mdape_weighted_swapped_witness",
     "SkVerif.C06.gm_eq_spec_partial",
+    "SkVerif.C06.gmrae_univariate_eq_spec_partial",
     "SkVerif.C06.gm_weighted_violated",
 ]
 TRUSTED = ["hand-written model SkVerif/Model/Metrics.lean of _functions.py / _classes.py over exact rationals",
            "numpy (np.average, np.median, np.where, broadcasting), scipy gmean, sklearn _weighted_percentile / mean_absolute_error / "
            "median_absolute_error / mean_squared_error as black boxes (sklearn 0.24 semantics of the private "
-           "_check_reg_targets signature and of mean_squared_error(squared=False) come from skcompat.patch_metrics)",
+           "_check_reg_targets signature and of mean_squared_error(squared=False) come from skcompat.patch_metrics, the latter "
+           "refined module-scoped in corr/C06.py so that bad output weights are a ValueError as in 0.24)",
            "np.sqrt / exp-log geometric mean are compared through radicand + root degree (the float root is taken by the harness)"]
 ASSUMPTIONS = ["exact arithmetic: theorems are over Rat and say nothing about float rounding; inputs are dyadic rationals",
                "horizon weights and multioutput weights are >= 0 (negative weights: weighted percentile undefined, outside the model)",
@@ -60,7 +65,17 @@ RULE = ("exhaustive small scope: 18 metrics x option grid x all y_true,y_pred in
         "corpus (EPS-clamp regions, docstring examples, witnesses of the known findings). distinct by driver line; "
         "non-trivial = the real code returned a number (no error) from at least 2 horizon steps")
 LEVEL_TEXT = "proof"
-LEVEL_NOTE = ""
+LEVEL_NOTE = ("Proved for the Rat model, all lengths / shapes / weights / options: non-negativity of all 18 metrics, zero at a perfect "
+              "forecast (16 metrics) and the EPS floor of the unweighted geometric means, swap invariance and the [0,2] / [0,4] bounds of "
+              "the symmetric percentage errors, scale invariance of the four scaled errors while the naive error is not clamped "
+              "(+ witness of failure when it is), raw_values = column-by-column and uniform / weighted averaging for the 9 direct "
+              "two-argument metrics, textbook formulas for MAE, MSE, (s)MAPE, (s)MSPE, asymmetric error, the unweighted median metrics "
+              "(np.median is a median), and univariate MRAE, GMRAE, MASE, MSSE, MdASE, MdSSE, relative loss; class = function for the 8 "
+              "callable classes. Only observed by correspondence + oracle: sklearn's weighted percentile as the documented weighted median, "
+              "per-column behaviour of relative / scaled metrics, multi-output aggregation of scaled errors and relative loss, rejection "
+              "branches, float rounding. Known findings (model keeps the code's behaviour, negation proved at witnesses): weighted MdAPE with "
+              "symmetric=False swaps its arguments; horizon-weighted geometric means broadcast weights along the wrong axis; 10 of 18 metric "
+              "classes raise on every call.")
 TECHNIQUE = "Lean 4 theorems over an executable Rat model + differential correspondence against the real functions and classes"
 
 EPS = Fraction(1, 2 ** 52)
@@ -98,11 +113,30 @@ _FMOD = None
 
 
 def _mod():
-    """the real module (skcompat.patch_metrics restores sklearn 0.24's private API it was written against,
-    including `mean_squared_error(squared=False)` = RMSE per output column, then averaged)"""
+    """the real module under skcompat.patch_metrics, plus one module-scoped refinement of the emulated
+    `sklearn.metrics.mean_squared_error(squared=False)`: sklearn 0.24 (pinned by sktime 0.6.0) validates `multioutput`
+    through `_check_reg_targets` (ValueError) before it takes the root per output column and averages;
+    sklearn 1.7's `root_mean_squared_error`, which skcompat delegates to, skips that validation and lets np.average
+    fail with a TypeError on output weights of the wrong length."""
     global _FMOD
     if _FMOD is None:
         import sktime.performance_metrics.forecasting._functions as F
+        import sklearn.metrics._regression as R
+        from sklearn.metrics import mean_squared_error as mse17
+        compat_mse = F._mean_squared_error
+
+        def _mse_024(y_true, y_pred, *, sample_weight=None, multioutput="uniform_average", squared=True):
+            if squared:
+                return compat_mse(y_true, y_pred, sample_weight=sample_weight, multioutput=multioutput, squared=True)
+            out = R._check_reg_targets(y_true, y_pred, sample_weight, multioutput)
+            y_true, y_pred, sample_weight, multioutput = out[1], out[2], out[3], out[-1]
+            errs = np.sqrt(mse17(y_true, y_pred, sample_weight=sample_weight, multioutput="raw_values"))
+            if isinstance(multioutput, str):
+                if multioutput == "raw_values":
+                    return errs
+                multioutput = None
+            return np.average(errs, weights=multioutput)
+        F._mean_squared_error = _mse_024
         _FMOD = F
     return _FMOD
 
@@ -903,10 +937,10 @@ def gen_cases(tier, rng):
         cases = list(ss)
         nrand, nmal, ncls = 9000, 1500, 900
     else:
-        step = 12
+        step = 8
         off = rng.randrange(step)
         cases = ss[off::step]
-        nrand, nmal, ncls = 1500, 300, 180
+        nrand, nmal, ncls = 2700, 450, 270
     for i in range(nrand):
         cases.append(random_case(rng, METRICS[i % len(METRICS)]))
     for _ in range(nmal):
